@@ -1,6 +1,7 @@
 import Rare.Proofs.C12Parse
 import Rare.Proofs.C12Grammar
 import Rare.Proofs.C12Scan
+import Rare.Proofs.C12Ext
 import Rare.Gen.C12
 /-!
 Property C12 – dissect matching equals its specification; ignore-case only adds matches.
@@ -256,6 +257,272 @@ theorem compile_code_matches_source :
       "ignoreCase", "len(keyName) == 0", "keyName[0] == '?'", "!skipped", "_, ok := groupNames[keyName]; ok", "ignoreCase"] := by
   decide
 
+
+/-! ### Round 4 – what Go runs behind `strings.Index`, the exact fold, named slots, source ties -/
+
+/-- **`strings.Index` is no longer "by contract"**: the executable mirror of go1.23
+`stringslite.Index` (`goIndex`: the four `switch` arms, the `IndexByte`-skip loop with its `fails`
+cut-over, `IndexRabinKarp` with the wrap-around `uint32` rolling hash and `HashStr`'s
+square-and-multiply `pow`) returns, for ALL byte strings, the contract value `stringsIndex` the
+dissect model is written against.  (The amd64 assembly `bytealg.IndexString` used for needles of at
+most 63 bytes stays an oracle; the correspondence op `index` runs the real `strings.Index` and
+`bytes.Index` against `goIndex`.) -/
+theorem go_index_eq_contract (s sub : Bytes) : goIndex s sub = stringsIndex s sub :=
+  goIndex_eq s sub
+
+/-- …spelled out: `goIndex` is the LEAST position where the needle is a prefix of the remainder,
+`-1` exactly when there is none, and never one of the model's "Go would panic" (`-3`) / "fuel"
+(`-2`) sentinels – the index expressions `s[i]`, `s[i+1]`, `s[i-n]` of the loops stay in range. -/
+theorem go_index_least (s sub : Bytes) :
+    (∀ i : Nat, goIndex s sub = (i : Int) ↔
+      (i ≤ s.length ∧ sub <+: s.drop i ∧ ∀ j < i, ¬ sub <+: s.drop j)) ∧
+    (goIndex s sub = -1 ↔ ∀ k ≤ s.length, ¬ sub <+: s.drop k) ∧
+    -1 ≤ goIndex s sub := by
+  rw [goIndex_eq]
+  refine ⟨fun i => ?_, ?_, stringsIndex_ge s sub⟩
+  · rw [← firstIndex_spec]
+    unfold stringsIndex
+    cases firstIndex sub s <;> simp <;> omega
+  · rw [← firstIndex_none_iff]
+    unfold stringsIndex
+    cases firstIndex sub s <;> simp <;> omega
+
+/-- the edge cases the property text names: the empty needle is found at 0 (also in the empty
+string), a needle longer than the hay is not found, a string is found in itself at 0 -/
+theorem go_index_edges (s sub : Bytes) :
+    goIndex s [] = 0 ∧ (s.length < sub.length → goIndex s sub = -1) ∧ goIndex s s = 0 := by
+  refine ⟨by simp [goIndex, goIndexWith], fun h => ?_, ?_⟩
+  · rw [goIndex_eq]
+    simp [stringsIndex, firstIndex_none_of_short h]
+  · rw [goIndex_eq]
+    simpa using stringsIndex_of_least (s := s) (sub := s) (i := 0) (by omega) (by simp) (by omega)
+
+/-- `bytealg.IndexRabinKarp` (the fall-back of long searches) computes the contract whenever Go may
+call it, i.e. `len(sep) ≤ len(s)` – hash collisions cannot produce a wrong answer (every hash hit
+is verified) and the rolling hash cannot miss an occurrence (it IS the hash of the window, in
+`uint32` arithmetic). -/
+theorem rabin_karp_eq_contract (s sub : Bytes) (h : sub.length ≤ s.length) :
+    indexRabinKarp s sub = stringsIndex s sub :=
+  indexRabinKarp_eq s sub h
+
+/-- **`indexIgnoreCase` (case.go), all four `switch` arms and both loops**, for ANY second argument
+(also one that is not lowered, also the empty one): the least position where it is a prefix of the
+byte-wise ASCII-lowered line. -/
+theorem index_ignore_case_contract (s low : Bytes) :
+    indexIgnoreCase s low = goIndex (lower s) low ∧
+    (∀ i : Nat, indexIgnoreCase s low = (i : Int) ↔
+      (i ≤ s.length ∧ low <+: lower (s.drop i) ∧ ∀ j < i, ¬ low <+: lower (s.drop j))) := by
+  refine ⟨by rw [indexIgnoreCase_eq, goIndex_eq], fun i => ?_⟩
+  rw [indexIgnoreCase_eq]
+  have := (go_index_least (lower s) low).1 i
+  rw [goIndex_eq] at this
+  simpa [lower_length, lower_drop] using this
+
+/-- the search function a compiled pattern installs (`indexOf`) is one of the two executable
+searches: `strings.Index` as Go runs it, or `indexIgnoreCase` -/
+theorem dissect_runs_go_index (d : Dissect) (src of_ : Bytes) :
+    d.indexOf src of_ = if d.ic then indexIgnoreCase src of_ else goIndex src of_ := by
+  simp [Dissect.indexOf, goIndex_eq]
+
+/-- **The fold of ignore-case, exactly** (`lowerASCII`'s `for i := range b` loop = `lower`): it is
+positional and length-preserving – byte `i` of the folded text is `lowerByte` of byte `i` – so every
+offset computed on the folded line IS an offset of the original line; it changes `A`–`Z` only, in
+particular no byte ≥ 0x80 (no UTF-8 lead or continuation byte), and it is idempotent. -/
+theorem ci_fold_exact (s : Bytes) :
+    lowerASCII s = lower s ∧ (lower s).length = s.length ∧
+    (∀ i : Nat, (lower s)[i]? = s[i]?.map lowerByte) ∧
+    (∀ c : UInt8, ¬ (65 ≤ c ∧ c ≤ 90) → lowerByte c = c) ∧
+    (∀ c : UInt8, 65 ≤ c ∧ c ≤ 90 → lowerByte c = c + 32) ∧
+    lower (lower s) = lower s := by
+  refine ⟨lowerASCII_eq s, lower_length s, lower_getElem? s, fun c h => lowerByte_of_not_upper h,
+    fun c h => by simp [lowerByte, h], ?_⟩
+  apply lower_of_noUpper
+  intro c hc
+  simp only [lower, List.mem_map] at hc
+  obtain ⟨x, _, hx⟩ := hc
+  rw [← hx]
+  unfold lowerByte
+  split
+  · rename_i h
+    have h1 := UInt8.le_iff_toNat_le.mp h.1
+    have h2 := UInt8.le_iff_toNat_le.mp h.2
+    intro h'
+    have h3 := UInt8.le_iff_toNat_le.mp h'.2
+    simp only [UInt8.toNat_add] at h3
+    simp at h1 h2 h3
+    omega
+  · rename_i h; exact h
+
+/-- **Offsets of an ignore-case match index the ORIGINAL line**: the reported start `s` satisfies
+`s + len(prefix) ≤ len(line)`, the original bytes `line[s : s+len(prefix)]` fold to the folded
+leading literal, and no earlier position of the original line does. -/
+theorem ci_offsets_index_original (p : Pat) (hp : p.Shape) (dI : Dissect)
+    (hcI : compileEx p.render true = .ok dI) (line : Bytes) (r : List Int)
+    (hr : matchAll dI [line] = .ok [some r]) :
+    ∃ (s : Nat) (rest : List Int), r = (s : Int) :: rest ∧ s + p.pre.length ≤ line.length ∧
+      lower ((line.drop s).take p.pre.length) = lower p.pre ∧
+      ∀ j < s, ¬ lower p.pre <+: lower (line.drop j) := by
+  rw [dissect_eq_spec true p hp dI hcI] at hr
+  simp only [List.map_cons, List.map_nil, Except.ok.injEq, List.cons.injEq, and_true, specFor, if_true] at hr
+  cases hs : specDissectIC p line with
+  | none => simp [hs] at hr
+  | some r0 =>
+    rw [hs] at hr
+    simp only [Option.map_some, Option.some.injEq] at hr
+    obtain ⟨s, rest, h1, h2, h3, h4⟩ := specDissectIC_leading hs
+    exact ⟨s, rest.map Int.ofNat, by rw [← hr, h1]; rfl, h2, h3, h4⟩
+
+/-- **Where the two modes coincide**: when neither the line nor the literals of the pattern contain
+an ASCII upper-case letter (any other bytes, e.g. arbitrary UTF-8, are allowed) ignore-case matching
+IS case-sensitive matching – same matches, same offsets. -/
+theorem ci_eq_cs_without_upper (p : Pat) (hp : p.Shape) (d dI : Dissect)
+    (hc : compileEx p.render false = .ok d) (hcI : compileEx p.render true = .ok dI)
+    (hpre : NoUpper p.pre) (hlits : ∀ t ∈ p.toks, NoUpper t.lit)
+    (lines : List Bytes) (hl : ∀ l ∈ lines, NoUpper l) :
+    matchAll dI lines = matchAll d lines := by
+  rw [dissect_eq_spec true p hp dI hcI, dissect_eq_spec false p hp d hc]
+  congr 1
+  apply List.map_congr_left
+  intro l hlm
+  simp only [specFor, if_true, Bool.false_eq_true, if_false]
+  rw [specDissectIC_of_noUpper (hl l hlm) hpre hlits]
+
+/-- …and just outside that class they differ, in both ways (kernel-checked witnesses).
+(1) The fold is ASCII-only: the pattern `É=%{v}` does not match the line `é=1` with ignore-case
+although U+00C9 lower-cases to U+00E9 (nor does U+212A KELVIN SIGN match `k`).
+(2) With an upper-case letter in the line, both modes may match and report DIFFERENT offsets:
+`a=%{v}` on `A=1 a=2` gives `[4,7,6,7]` case-sensitively and `[0,7,2,7]` with ignore-case
+(ignore-case finds the earlier `A=`), so `ci_monotone` cannot be strengthened to equal results. -/
+theorem ci_boundary_counterexamples :
+    matchAll (compiled true ⟨[195, 137, 61], [⟨[118], []⟩]⟩) [[195, 169, 61, 49]] = .ok [none] ∧
+    matchAll (compiled true ⟨[226, 132, 170, 61], [⟨[118], []⟩]⟩) [[107, 61, 49]] = .ok [none] ∧
+    matchAll (compiled false ⟨[97, 61], [⟨[118], []⟩]⟩) [[65, 61, 49, 32, 97, 61, 50]] = .ok [some [4, 7, 6, 7]] ∧
+    matchAll (compiled true ⟨[97, 61], [⟨[118], []⟩]⟩) [[65, 61, 49, 32, 97, 61, 50]] = .ok [some [0, 7, 2, 7]] := by
+  simp only [matchAll_compiled, Except.ok.injEq]
+  decide
+
+/-- **Named-field view** (`SubexpNameTable` + the index slice): a result has exactly
+`2·groupCount + 2` entries, and for every entry `(name, i)` of the name table, `name` is the `i`-th
+capturing token of the pattern (1-based, in pattern order) and the slots `r[2i]`, `r[2i+1]` exist,
+are ordered, and lie inside the line – so `line[r[2i]:r[2i+1]]` never panics. -/
+theorem named_slots (ic : Bool) (p : Pat) (hp : p.Shape) (d : Dissect)
+    (hc : compileEx p.render ic = .ok d) (line : Bytes) (r : List Int)
+    (hr : matchAll d [line] = .ok [some r]) :
+    r.length = 2 * d.groupCount + 2 ∧
+    ∀ nm i, (nm, i) ∈ d.groupNames →
+      1 ≤ i ∧ i ≤ d.groupCount ∧ (capturedNames p.toks)[i - 1]? = some nm ∧
+      ∃ a b : Nat, r[2 * i]? = some (a : Int) ∧ r[2 * i + 1]? = some (b : Int) ∧ a ≤ b ∧ b ≤ line.length := by
+  have hd := (compileEx_ok hp hc).2
+  rw [dissect_eq_spec ic p hp d hc] at hr
+  simp only [List.map_cons, List.map_nil, Except.ok.injEq, List.cons.injEq, and_true] at hr
+  cases hs : specFor ic p line with
+  | none => simp [hs] at hr
+  | some r0 =>
+    rw [hs] at hr
+    simp only [Option.map_some, Option.some.injEq] at hr
+    obtain ⟨hlen, hslot⟩ := specFor_slots hs
+    subst hd
+    refine ⟨by rw [← hr]; simpa [compiled] using hlen, fun nm i hm => ?_⟩
+    have hm' : (nm, i) ∈ nameTable p.toks := hm
+    obtain ⟨h1, h2⟩ := mem_nameTable.mp hm'
+    have hi : i ≤ capCount p.toks := by
+      rw [capCount_eq_names]
+      rcases Nat.lt_or_ge (i - 1) (capturedNames p.toks).length with h' | h'
+      · omega
+      · rw [List.getElem?_eq_none h'] at h2; cases h2
+    obtain ⟨a, b, ha, hb, hab, hbl⟩ := hslot i h1 hi
+    refine ⟨h1, hi, h2, a, b, ?_, ?_, hab, hbl⟩
+    · rw [← hr]; simp [ha]
+    · rw [← hr]; simp [hb]
+
+/-- The name table of a compiled pattern is a function (a Go map): a name has ONE index, the
+indices are exactly `1 … groupCount`, and skipped tokens (`%{}`, `%{?name}`) have no entry even when
+a captured token carries the same name. -/
+theorem name_table_is_map (s : Bytes) (ic : Bool) (d : Dissect) (hc : compileEx s ic = .ok d) :
+    (∀ nm i j, (nm, i) ∈ d.groupNames → (nm, j) ∈ d.groupNames → i = j) ∧
+    (∀ i, 1 ≤ i → i ≤ d.groupCount → ∃ nm, (nm, i) ∈ d.groupNames) ∧
+    d.groupNames.length = d.groupCount := by
+  obtain ⟨p, g, hs⟩ := (compile_iff_pattern_grammar s ic).mp ⟨d, hc⟩
+  have hd : d = compiled ic p := by
+    have := compile_of_derivation p g ic
+    rw [← hs, hc] at this
+    exact Except.ok.inj this
+  subst hd
+  refine ⟨fun nm i j hi hj => nameTable_functional g.names hi hj, fun i h1 h2 => ?_, ?_⟩
+  · have h2' : i - 1 < (capturedNames p.toks).length := by
+      have : i ≤ capCount p.toks := h2
+      rw [capCount_eq_names] at this; omega
+    exact ⟨(capturedNames p.toks)[i - 1], mem_nameTable.mpr ⟨h1, List.getElem?_eq_getElem h2'⟩⟩
+  · show (nameTable p.toks).length = capCount p.toks
+    rw [nameTable_eq, capCount_eq_names]; simp
+
+/-- **Instances and goroutines**: `FindSubmatchIndex` never changes the compiled pattern – the
+instance it returns carries the same `Dissect` – so all it mutates is the instance's own pool.
+Together with `find_access_table` (the real method assigns nothing through its receiver and the
+only receiver calls are `s.indexOf` and `s.groupPool.Get`) and the wiring (each extractor worker
+calls `CreateInstance` once: `pkg/extractor/extractor.go asyncWorker`) instances of one pattern on
+different goroutines share only read-only data. -/
+theorem find_preserves_dissect (s s' : Instance) (str : Bytes) (r : Option View)
+    (h : findSubmatchIndex s str = .ok (r, s')) : s'.d = s.d :=
+  find_same_dissect h
+
+/-- **Tie to the source (regenerated on every run)**: what `FindSubmatchIndex` and `IntPool.Get` do
+through their receivers, from the Go AST: `FindSubmatchIndex` assigns nothing through `s` (all its
+assignments go to locals and to the fresh slice `ret`), its receiver calls are the two searches and
+one `Get`; `Get` writes `s.pool` only. -/
+theorem find_access_table :
+    Gen.C12.findReceiverWrites = [] ∧
+    Gen.C12.findReceiverCalls = ["s.indexOf", "s.groupPool.Get", "s.indexOf"] ∧
+    Gen.C12.poolGetReceiverWrites = ["s.pool", "s.pool"] := by
+  decide
+
+/-- **Tie to the source**: the match loop of `FindSubmatchIndex` statement by statement – the
+guard on the empty prefix, `start += len(s.prefix)`, `ret[0] = start - len(s.prefix)`, the empty
+delimiter taking `len(str[start:])`, the search in `str[start:]`, the two capture slots and
+`idx += 2` under `!token.skip`, `start + endOffset + len(token.until)`, `ret[1] = start` – is the
+text `findSubmatchIndex` / `tokenLoop` of the model mirror. -/
+theorem find_code_matches_source :
+    Gen.C12.findSkeleton =
+      ["str := *(*string)(unsafe.Pointer(&b))", "start := 0", "if s.prefix != \"\"",
+       "start = s.indexOf(str, s.prefix)", "if start < 0", "return nil", "end",
+       "start += len(s.prefix)", "end", "ret := s.groupPool.Get(s.groupCount*2 + 2)",
+       "ret[0] = start - len(s.prefix)", "idx := 2", "range _, token := s.tokens", "endOffset := 0",
+       "if token.until == \"\"", "endOffset = len(str[start:])", "else",
+       "endOffset = s.indexOf(str[start:], token.until)", "if endOffset < 0", "return nil", "end", "end",
+       "if !token.skip", "ret[idx] = start", "ret[idx+1] = start + endOffset", "idx += 2", "end",
+       "start = start + endOffset + len(token.until)", "end", "ret[1] = start", "return ret"] := by
+  decide
+
+/-- **Tie to the source**: `indexIgnoreCase` (four arms, loop bounds `i < n`, `i <= len(s)-n`,
+`j < n`, the comparison `lowerByte(s[i+j]) != loweredSubstr[j]`) and `lowerASCII`, statement by
+statement, are what `indexIgnoreCase` / `icLoop` / `foldEq` / `lowerASCIILoop` mirror. -/
+theorem ic_code_matches_source :
+    Gen.C12.icSkeleton =
+      ["n := len(loweredSubstr)", "switch", "case n == 0", "return 0", "case len(s) < n", "return -1",
+       "case len(s) == n", "for i := 0; i < n; i++", "if lowerByte(s[i]) != loweredSubstr[i]", "return -1",
+       "end", "end", "return 0", "default", "for i := 0; i <= len(s)-n; i++", "match := true",
+       "for j := 0; j < n; j++", "if lowerByte(s[i+j]) != loweredSubstr[j]", "match = false", "break",
+       "end", "end", "if match", "return i", "end", "end", "return -1", "end"] ∧
+    Gen.C12.lowerASCIISkeleton =
+      ["b := []byte(s)", "range i := b", "b[i] = lowerByte(b[i])", "end", "return string(b)"] := by
+  decide
+
+/-- **Tie to the source**: `IntPool.Get` and `CreateInstance`, statement by statement (refill test
+`len(s.pool) < n`, panic test `n > s.size`, `ret = s.pool[:n]`, `s.pool = s.pool[n:]`; nothing is
+ever handed back) are what `Pool.get` / `createInstance` mirror. -/
+theorem pool_code_matches_source :
+    Gen.C12.poolGetSkeleton =
+      ["if len(s.pool) < n", "if n > s.size", "panic(\"pool not large enough\")", "end",
+       "s.pool = make([]int, s.size)", "end", "ret = s.pool[:n]", "s.pool = s.pool[n:]", "return"] ∧
+    Gen.C12.createInstanceSkeleton =
+      ["return &DissectInstance{ s, slicepool.NewIntPool((s.groupCount*2 + 2) * 1024), }"] := by
+  decide
+
+/-- **Tie to the source**: `lowerByte` of case.go, translated from the Go AST (`'A' <= c && c <=
+'Z'`, `c + ('a' - 'A')`), is the fold of the specification on every byte. -/
+theorem gen_lowerByte_eq (c : UInt8) : Gen.C12.lowerByte c = lowerByte c := by
+  simp [Gen.C12.lowerByte, lowerByte]
+
 /-! ### Non-vacuity: the hypotheses above are satisfiable on concrete, non-trivial values -/
 
 /-- `k=%{x} %{?s};%{y}` -/
@@ -303,5 +570,16 @@ example : acceptsPattern [37, 123, 97, 125, 32, 49, 48, 48, 37, 32, 100, 111, 11
     acceptsPattern [37, 37, 123, 97, 125, 37] = true := by decide
 example : ¬ PatternText [37, 123, 97, 125, 37, 123, 98, 125] := by
   rw [← accepts_iff_grammar]; decide
+
+-- round 4: hypotheses of the new theorems on concrete values
+-- goIndex on a periodic text: the needle `aab` in `aaaaaaab` (overlapping partial matches)
+example : goIndex [97, 97, 97, 97, 97, 97, 97, 98] [97, 97, 98] = 5 := by decide
+-- a search long enough to reach the Rabin–Karp fall-back (period 7, needle = the last 9 bytes + `!`)
+example : goIndex ((List.replicate 12 [1, 1, 1, 1, 1, 1, 2]).flatten ++ [1, 1, 3]) [1, 1, 2, 1, 1, 3] = 81 := by decide
+example : indexRabinKarp [1, 2, 1, 2, 1, 2, 3] [1, 2, 3] = 4 := by decide
+-- `NoUpper` holds for UTF-8 text without ASCII capitals: `héllo=1`
+example : NoUpper [104, 195, 169, 108, 108, 111, 61, 49] := by decide
+-- named slots: `k=%{x} %{?s};%{y}` on `ak=1 2;3`: x ↦ 1 ↦ [3,4], y ↦ 2 ↦ [7,8]
+example : (compiled false exPat).groupNames = [([120], 1), ([121], 2)] ∧ (compiled false exPat).groupCount = 2 := by decide
 
 end Rare.C12
